@@ -285,8 +285,67 @@ class C17(core.Check):
                     ops.append([name, who, r.choice([1, 7, 12345])])
         return {"prop": "C17", "seed": seed, "init": init, "ops": ops}
 
-    # ------------------------------------------------------------ execute
+    # ------------------------------------------------------------ exhaustive blocks (short sequences)
+    EXH_KEYS = ["name", "NAME", "layers", "Layers", "x", "X"]
+
+    def exh_alphabet(self):
+        ops = []
+        for k in self.EXH_KEYS:
+            ops += [["getitem", 0, k], ["setitem", 0, k, ["i", 1]], ["delitem", 0, k], ["contains", 0, k], ["get", 0, k, False, ["n"]],
+                    ["pop", 0, k, False, ["n"]], ["pop", 0, k, True, ["i", 9]], ["setdefault", 0, k, True, ["l", []]],
+                    ["update", 0, "pairs", [[k, ["i", 3]]], []], ["update", 0, "kwargs", [[k, ["i", 4]]], []]]
+        ops += [["copy", 0, "copy"], ["copy", 0, "deepcopy"], ["copy", 0, "pickle"], ["deep_mutate", 1, 0, [0], ["i", 5]], ["items", 1], ["eq", 0, 1]]
+        return ops
+
+    def exh_blocks(self, tier):
+        """(first op index, factory) blocks; a block enumerates every sequence of length L starting with that op"""
+        n = len(self.exh_alphabet())
+        return [(i, f) for f in ("none", "ci") for i in range(n)]
+
+    def generate_idx(self, seed, tier, idx):
+        blocks = self.exh_blocks(tier)
+        if idx < len(blocks):
+            i, f = blocks[idx]
+            return {"prop": "C17", "seed": seed, "exhaustive": {"first": i, "factory": f, "length": 2 if tier == "quick" else 3}}
+        return self.generate(seed, tier)
+
     def execute(self, case):
+        if "exhaustive" not in case:
+            return self.execute_history(case)
+        import itertools
+
+        ex = case["exhaustive"]
+        alpha = self.exh_alphabet()
+        first = alpha[ex["first"]]
+        total = 0
+        steps = 0
+        cover = set()
+        for init_keys in ([], ["name"], ["layers", "x"]):
+            init = ["d", ex["factory"], [[k, ["l", [["i", 0]]] if k == "layers" else ["s", "v"]] for k in init_keys]]
+            for rest in itertools.product(alpha, repeat=ex["length"] - 1):
+                r = self.execute_history({"init": init, "ops": [first] + list(rest)})
+                total += 1
+                steps += r["steps"]
+                cover.update(r.get("cover", ()))
+                if r["violation"]:
+                    r["case_explicit"] = {"prop": "C17", "seed": case.get("seed", 0), "init": init, "ops": [first] + list(rest)}
+                    r["stats"] = {"exhaustive.sequences": total}
+                    return r
+        return {"violation": None, "digest": core.digest(["exhaustive", ex]), "nontrivial": True,
+                "stats": {"exhaustive.sequences": total, "exhaustive.blocks": 1}, "steps": steps, "cover": sorted(cover)}
+
+    def extra_phases(self, tier, seed, report):
+        n6 = 6  # lower-case keys of the alphabet; abstract state = factory kind x ordered tuple of <= 4 present keys
+        states = sum(__import__("math").perm(n6, j) for j in range(5)) * 3
+        report["extra"]["abstract_states_upper_bound"] = states
+        report["extra"]["abstract_state_x_operation_kind_pairs_upper_bound"] = states * len(self.OPS)
+        report["extra"]["exhaustive_phase"] = (
+            f"run indices 0..{len(self.exh_blocks(tier)) - 1} enumerate EVERY operation sequence of length "
+            f"{2 if tier == 'quick' else 3} over a {len(self.exh_alphabet())}-operation alphabet (3 keys x 2 spellings) from 3 initial "
+            "dictionaries x {no factory, loads-style factory}; the remaining indices are the seeded random histories")
+
+    # ------------------------------------------------------------ execute one history
+    def execute_history(self, case):
         CI = self.CI
         factories.FAULT["raise"] = False
         pop = [(self.build_real(case["init"]), self.build_model(case["init"]))]
